@@ -562,3 +562,5 @@ pub fn run(ctx: &Ctx) -> (Acc, String, bool) {
     );
     (acc, rule, false)
 }
+
+pub const ASSUMPTIONS: &[&str] = &["model: independent growable tables (plain vectors) + stacks where pop_frame discards the operands pushed after the matching push_frame", "unstructured 64-bit hash collisions of the intern cache are out of reach; only structural aliasing of the hashed byte stream is generated"];
